@@ -105,6 +105,23 @@ CHECKS = {
             "without (right or wrong) order hints, for both difficulty functions.",
             "trusted: vlib/irv.py; agap = 0; more than 6 candidates are not explored",
             "DESIGN.md section 4, C15"),
+    "C14": ("exhaustive enumeration of (ballot, assertion) pairs through both real implementations; reader-vs-reader comparison on generated files; re-application of returned assertions",
+            "Exploration by runtime monitoring, exhaustive on its main clause: for n = 2..6 candidates every partial ranking x "
+            "ordered (winner, loser) pair x eliminated set is pushed through the real audit-side assorter (built by "
+            "make_assertions_from_json from documented JSON, 1-based ranks) and the real NEB/NEN verdicts (0-based) and "
+            "assort == (w-l+1)/2 is required; generated RAIRE files are read by both readers and compared entry by entry; "
+            "assertions returned by real RAIRE runs must reproduce their reported tallies when re-applied.",
+            "trusted: the JSON mapping WINNER_ONLY<->NEB, IRV_ELIMINATION<->NEN; duplicate-free rankings; string candidate ids",
+            "DESIGN.md section 4, C14"),
+    "C20": ("brute-force reference monitor: the set of untagged root-to-leaf paths of the real tree vs the set of uncontradicted elimination orders; exact tag sets per pruned node",
+            "Exploration by runtime monitoring: for generated (candidates, alternative winner, assertion set) triples - empty, "
+            "real RAIRE output, that output minus one, random, redundant, mutually inconsistent - the tree built by the real "
+            "buildRemainingTreeAsLists is walked; its untagged leaves (reversed paths) must equal the orders no assertion "
+            "contradicts, every pruned node's tags must be exactly the contradicting assertions with their proved flags, the "
+            "rendered tuple must carry the 'Unpruned leaf' marker iff such a leaf exists, and parseAssertions must translate "
+            "synthetic audit-log JSON into the documented tuples.",
+            "trusted: the contradiction rules in checks/c20.py (same definitions as vlib/irv.py); n <= 5 quick, 6 thorough",
+            "DESIGN.md section 4, C20"),
 }
 
 PENDING_REASON = ("check designed in DESIGN.md section 4 but not yet built in this session; "
